@@ -61,4 +61,30 @@ def cacheTierFor (h : Tunnox.C14.Storage) (key : String) : Option Tunnox.C14.Tie
       h.cache
 end hybrid.Storage
 
+namespace Skel
+def Storage_AppendToList : List String := ["lockKey", "getList", "getCategory", "setLocked"]
+def Storage_Delete : List String := ["lockKey", "getCategory", "getCacheForKey", "cache.Delete", "cache.Delete", "persistent.Delete", "cache.Delete", "persistent.Delete"]
+def Storage_DeleteHash : List String := ["cacheTierFor().Delete", "cacheTierFor"]
+def Storage_Exists : List String := ["getCategory", "getCacheForKey", "cache.Exists", "cache.Exists", "persistent.Exists", "cache.Exists", "persistent.Exists"]
+def Storage_Get : List String := ["get"]
+def Storage_GetHash : List String := ["cacheTierFor().Get", "cacheTierFor"]
+def Storage_GetList : List String := ["getList"]
+def Storage_Incr : List String := ["IncrBy"]
+def Storage_IncrBy : List String := ["cacheTierFor", "counter.IncrBy", "lockKey", "cache.Get", "cache.Set"]
+def Storage_RemoveFromList : List String := ["lockKey", "getList", "getCategory", "setLocked"]
+def Storage_Set : List String := ["lockKey", "setLocked"]
+def Storage_SetExpiration : List String := ["lockKey", "cacheTierFor", "cache.Get", "cache.Set"]
+def Storage_SetHash : List String := ["cacheTierFor().Set", "cacheTierFor"]
+def Storage_SetPersistent : List String := ["lockKey", "setPersistent"]
+def Storage_SetRuntime : List String := ["lockKey", "setRuntime"]
+def Storage_get : List String := ["getCategory", "getCacheForKey", "cache.Get", "getSharedPersistent", "cache.Get", "lockKey", "persistent.Get", "cache.Set"]
+def Storage_getList : List String := ["get"]
+def Storage_getSharedPersistent : List String := ["cache.Get", "lockKey", "persistent.Get", "cache.Set"]
+def Storage_setLocked : List String := ["getCategory", "setPersistent", "setShared", "setSharedPersistent", "setRuntime"]
+def Storage_setPersistent : List String := ["persistent.Set", "cache.Set"]
+def Storage_setRuntime : List String := ["cache.Set"]
+def Storage_setShared : List String := ["getCacheForKey", "cache.Set"]
+def Storage_setSharedPersistent : List String := ["persistent.Set", "sharedCache.Set", "cache.Set"]
+end Skel
+
 end Gen
